@@ -172,23 +172,25 @@ def _find_header(src, hdr, lo, hi, depth_only=True):
 def find_item(src, path):
     """path: list of headers, outermost first, e.g. ['impl RenameExt for String {', 'fn to_snake_case'].
     -> (start_byte, end_byte, first_sig_idx, last_sig_idx) of the innermost item (visibility included,
-    attributes and doc comments excluded)."""
-    lo, hi = 0, len(src.sig)
+    attributes and doc comments excluded).  When an outer header occurs several times (two `impl X {` blocks),
+    the one containing the rest of the path is taken; the full path must identify exactly one item."""
+    found = _find_in(src, path, 0, len(src.sig))
+    if len(found) != 1:
+        raise ItemNotFound('%r: %d matches' % (path, len(found)))
+    return found[0]
+
+
+def _find_in(src, path, lo, hi):
     st = src.sigtext
-    for depth_i, hdr in enumerate(path):
-        hits, hl = _find_header(src, hdr, lo, hi)
-        # a `fn name` header must be followed by ( or <
-        if hdr.split()[0] == 'fn' or ' fn ' in (' ' + hdr):
-            hits = [k for k in hits if st[k + hl] in ('(', '<')]
-        if hdr.split()[0] in ('struct', 'enum', 'trait', 'mod', 'const', 'type') and not hdr.rstrip().endswith('{'):
-            hits = [k for k in hits if st[k + hl] in ('{', '<', '(', ';', ':', '=')]
-        if len(hits) != 1:
-            raise ItemNotFound('%r: %d matches' % (hdr, len(hits)))
-        k = hits[0]
-        # extent: to the matching } of the first { at paren depth 0, or to ; before any {
-        j = k
-        pd = 0
-        end = None
+    hdr = path[0]
+    hits, hl = _find_header(src, hdr, lo, hi)
+    if hdr.split()[0] == 'fn' or ' fn ' in (' ' + hdr):
+        hits = [k for k in hits if st[k + hl] in ('(', '<')]
+    if hdr.split()[0] in ('struct', 'enum', 'trait', 'mod', 'const', 'type') and not hdr.rstrip().endswith('{'):
+        hits = [k for k in hits if st[k + hl] in ('{', '<', '(', ';', ':', '=')]
+    out = []
+    for k in hits:
+        j, pd, end, body_open = k, 0, None, None
         while j < hi:
             t = st[j]
             if t in ('(', '['):
@@ -201,23 +203,20 @@ def find_item(src, path):
                 break
             elif t == ';' and pd == 0:
                 end = j
-                body_open = None
                 break
             j += 1
         if end is None:
-            raise ItemNotFound('%r: no extent' % hdr)
-        # include visibility
+            continue
         first = k
         if first - 1 >= lo and st[first - 1] == 'pub':
             first -= 1
-        elif first - 4 >= lo and st[first - 4:first - 3] == ['pub'] and st[first - 3] == '(' and st[first - 1] == ')':
+        elif first - 4 >= lo and st[first - 4] == 'pub' and st[first - 3] == '(' and st[first - 1] == ')':
             first -= 4
-        if depth_i == len(path) - 1:
-            return (src.sig[first][1], src.sig[end][2], first, end)
-        if body_open is None:
-            raise ItemNotFound('%r has no body' % hdr)
-        lo, hi = body_open + 1, end
-    raise ItemNotFound('empty path')
+        if len(path) == 1:
+            out.append((src.sig[first][1], src.sig[end][2], first, end))
+        elif body_open is not None:
+            out.extend(_find_in(src, path[1:], body_open + 1, end))
+    return out
 
 
 # --------------------------------------------------------------------------- anchors (in pinned text)
@@ -243,6 +242,8 @@ class Anchor:
 class A:
     @staticmethod
     def text(s, nth=None): return Anchor('text', s=s, nth=nth)
+    @staticmethod
+    def span(s, e, nth=None): return Anchor('span', s=s, e=e, nth=nth)
     @staticmethod
     def sig(fn=None): return Anchor('sig', fn=fn)
     @staticmethod
@@ -321,21 +322,24 @@ def resolve(src, anchor):
     kd, kw = anchor.kind, anchor.kw
     st = src.sigtext
     if kd == 'text':
+        # whitespace/comment-insensitive: the anchor is matched as a sequence of significant tokens
         s, nth = kw['s'], kw['nth']
-        occ = []
-        i = src.text.find(s)
-        while i >= 0:
-            a, b = src.tok_at_start(i), src.tok_at_end(i + len(s))
-            if a is not None and b is not None:
-                occ.append((a, b))
-            i = src.text.find(s, i + 1)
+        want = [s[a:b] for (k, a, b) in lex(s) if k not in TRIVIA]
+        occ = [(i, i + len(want) - 1) for i in range(len(st) - len(want) + 1) if st[i:i + len(want)] == want]
         if nth is None:
             if len(occ) != 1:
-                raise AnchorLost('anchor %r: %d token-aligned occurrences in pinned text' % (s, len(occ)))
+                raise AnchorLost('anchor %r: %d occurrences in pinned text' % (s, len(occ)))
             return ('rg',) + occ[0]
         if nth > len(occ):
             raise AnchorLost('anchor %r: no occurrence #%d' % (s, nth))
         return ('rg',) + occ[nth - 1]
+    if kd == 'span':
+        a = resolve(src, Anchor('text', s=kw['s'], nth=kw.get('nth')))
+        want = [kw['e'][x:y] for (k, x, y) in lex(kw['e']) if k not in TRIVIA]
+        for i in range(a[1], len(st) - len(want) + 1):
+            if st[i:i + len(want)] == want:
+                return ('rg', a[1], i + len(want) - 1)
+        raise AnchorLost('span end %r not found after %r' % (kw['e'], kw['s']))
     if kd == 'next_tok':
         r = resolve(src, Anchor('text', s=kw['s'], nth=kw['nth']))
         for j in range(r[2] + 1, len(st)):
